@@ -15,6 +15,8 @@ pub static CAP: AtomicUsize = AtomicUsize::new(1 << 30);
 pub static CURRENT_RUN: AtomicU64 = AtomicU64::new(u64::MAX);
 pub static REFUSED: AtomicU64 = AtomicU64::new(0);
 pub static MAX_SEEN: AtomicUsize = AtomicUsize::new(0);
+/// bytes currently allocated through this allocator (leak hunting aid)
+pub static LIVE: std::sync::atomic::AtomicIsize = std::sync::atomic::AtomicIsize::new(0);
 
 const TABLE_BITS: usize = 16;
 const TABLE: usize = 1 << TABLE_BITS;
@@ -116,6 +118,7 @@ unsafe impl GlobalAlloc for SimAlloc {
             MAX_SEEN.store(size, Ordering::Relaxed);
         }
         let p = unsafe { System.alloc(layout) };
+        LIVE.fetch_add(size as isize, Ordering::Relaxed);
         if layout.align() > 16 && !p.is_null() {
             side_insert(p as usize, layout.align().trailing_zeros() as usize);
         }
@@ -130,6 +133,7 @@ unsafe impl GlobalAlloc for SimAlloc {
             return std::ptr::null_mut();
         }
         let p = unsafe { System.alloc_zeroed(layout) };
+        LIVE.fetch_add(size as isize, Ordering::Relaxed);
         if layout.align() > 16 && !p.is_null() {
             side_insert(p as usize, layout.align().trailing_zeros() as usize);
         }
@@ -143,6 +147,7 @@ unsafe impl GlobalAlloc for SimAlloc {
                 lay = unsafe { Layout::from_size_align_unchecked(layout.size(), 1usize << la) };
             }
         }
+        LIVE.fetch_sub(layout.size() as isize, Ordering::Relaxed);
         unsafe { System.dealloc(ptr, lay) }
     }
     unsafe fn realloc(&self, ptr: *mut u8, layout: Layout, new_size: usize) -> *mut u8 {
